@@ -10,6 +10,17 @@ def U(name, src, flavour='asan', quick=None, thorough=None, **kw):
 TRUSTED = ['g++ 12 / clang 14 and their ASan/UBSan runtimes', 'the choice-sequence engine in harness/engine.h (generation, shrinking, replay)']
 
 PROPERTIES = {
+ 'C15': dict(
+    level='exploration', exhaustive_claim=False,
+    rule='grammar-based generation of date-time and duration texts from fields (every field at/below/above range, magnitudes to and beyond 2^64, sign spellings, fractions incl. exact ties), mutated/garbage strings, exhaustive fraction values up to 6 digits; 14 time_point / 14 duration targets, time_t, tm; oracle = denoted value computed in __int128 from the generating fields',
+    assumptions=TRUSTED + ['ref_calendar.h', 'leniencies of the parser outside the four documented rejection classes (digit counts, text after Z, part order in durations) are accepted iff the returned value is the natural denotation', 'text that is both ungrammatical and out of range may raise either exception', 'recorded finding KF-27 excluded and witnessed'],
+    units=[U('c15_sweep', 'c15_iso_parse.cpp', flavour='opt', needs_lib=False, args=['--only-sweeps'],
+             quick=dict(shards=16, min_eval=5000000), thorough=dict(shards=16, min_eval=50000000, timeout=5400)),
+           U('c15_pbt', 'c15_iso_parse.cpp', flavour='asan', needs_lib=False, args=['--no-sweeps'],
+             quick=dict(cases=25000, shards=16, min_eval=100000), thorough=dict(cases=800000, shards=16, min_eval=1000000)),
+           U('c14_kf', 'c14_chrono_text.cpp', flavour='opt', args=['--no-sweeps', '--prop', 'kf27*'],
+             quick=dict(cases=800, shards=1, min_eval=100), thorough=dict(cases=8000, shards=1, min_eval=100))]),
+
  'C14': dict(
     level='exploration', exhaustive_claim=True,
     rule='exhaustive: every day of years -10000..+20000 for 7 precisions (+ 32-bit representations), every second of 12 selected days; generated min/max neighbourhoods, calendar boundaries and random 64-bit counts for time points and durations, CRawTime/CTimeRef, MsgPack timestamp passage; oracle = ref_calendar (Rata-Die in __int128, self-tested against glibc gmtime_r)',
